@@ -216,11 +216,60 @@ def rule_x5(chk: Check) -> None:
         chk.ob("X5", f"{cl.key}: every normal path closes the TCP transport", ok, evals=len(par))
 
 
+def rule_x6(chk: Check) -> None:
+    """The timeout paths log before they write and close; an exception from the
+    logging pipeline would end the one-shot timer callback with nothing sent and
+    nothing closed.  structlog itself is trusted; the package's own processors
+    must be total: no mapping lookup that can raise KeyError."""
+    chk.rule("X6", "the package's own structlog processors cannot raise on a lookup: every subscript load in them has a constant key guarded by an `in` test, or is replaced by .get()")
+    mi = chk.proj.module("utils.logging")
+    # functions referenced by name inside configure_logging's processor lists
+    procs = set()
+    for fi in mi.functions.values():
+        if not any((dotted(c.func) or "").endswith("structlog.configure") or (dotted(c.func) or "") == "structlog.configure" for c in calls(fi.node)):
+            continue
+        for x in ast.walk(fi.node):
+            if isinstance(x, ast.List):
+                procs |= {e.id for e in x.elts if isinstance(e, ast.Name) and e.id in mi.functions}
+            if isinstance(x, ast.Call) and method_call(x) and method_call(x)[1] in ("append", "insert", "extend"):
+                procs |= {a.id for a in x.args if isinstance(a, ast.Name) and a.id in mi.functions}
+    n = 0
+    for name in sorted(procs):
+        fi = mi.functions[name]
+        g = build_cfg(chk.proj, fi)
+        for node in g.nodes:
+            if node.ast is None or node.kind not in ("stmt", "test"):
+                continue
+            for sub in walk(node.ast):
+                if not (isinstance(sub, ast.Subscript) and isinstance(sub.ctx, ast.Load)) or isinstance(sub.slice, ast.Slice):
+                    continue
+                if isinstance(sub.value, ast.Name) and sub.value.id in ("dict", "list", "tuple", "set"):
+                    continue
+                n += 1
+                ok = False
+                if isinstance(sub.slice, ast.Constant) and isinstance(sub.slice.value, str) and dotted(sub.value):
+                    blocked = set()
+                    for t in g.nodes:
+                        if t.kind == "test" and isinstance(t.ast, ast.Compare) and len(t.ast.ops) == 1 and isinstance(t.ast.ops[0], (ast.In, ast.NotIn)) and isinstance(t.ast.left, ast.Constant) and t.ast.left.value == sub.slice.value and dotted(t.ast.comparators[0]) == dotted(sub.value):
+                            sat = "T" if isinstance(t.ast.ops[0], ast.In) else "F"
+                            blocked |= {(t.id, b, lab) for b, lab in g.succ[t.id] if lab == sat}
+                    ok = node.id not in g.reach([g.entry.id], blocked_edges=blocked)
+                if not ok:
+                    chk.finding(
+                        "X6", fi.key, f"processor-may-raise:{norm(sub)[:50]}",
+                        f"the log processor evaluates `{norm(sub)}`, a lookup that raises KeyError for a key it does not hold (e.g. a level name missing from a table): the request-timeout and handshake-timeout callbacks log before they answer and close, so the exception ends them with the connection still open and nothing sent",
+                        node.where(),
+                    )
+                chk.ob("X6", f"{fi.key}: `{norm(sub)[:50]}` cannot raise", ok)
+    chk.ob("X6", "own log processors examined", True, f"{len(procs)} processors, {n} lookups", nontrivial=False)
+
+
 def run(chk: Check) -> None:
     rule_x1(chk)
     rule_x2(chk)
     rule_x3(chk)
     rule_x4(chk)
     rule_x5(chk)
+    rule_x6(chk)
     chk.trusted = ["CPython ast parser", "engine CFG / machine", "asyncio fires call_later callbacks on time and supervises the handshake of ssl= listeners (ssl_handshake_timeout default)"]
     chk.assumptions = ["an event loop is running whenever a protocol callback runs"]
